@@ -23,14 +23,18 @@ BOUNDS = {"quick": {"n1": 3, "na": 2, "nb": 2}, "thorough": {"n1": 5, "na": 3, "
 B = {}
 BOUNDS_TEXT = ("one-leaf shapes [A], [[A]], [[[A]]], [[], A]: leaf = any byte string of <= n1 bytes / None / int 0..11; "
                "two-leaf shapes [A,B], [[A,B]], [A,[B]], [[A],B], [[A],[B]], [A,[],B]: A any byte string of "
-               "1..na bytes, B any byte string of <= nb bytes / None / int 0..3")
+               "1..na bytes, B any byte string of <= nb bytes / None / int 0..3; serializer-only RFC 3501 "
+               "quoted-string form for every CR/LF-free byte string of <= n1 bytes (backslashes included)")
 OUTSIDE = ["more than two leaves, nesting deeper than 3, byte strings longer than the bound",
            "strings longer than 1000 bytes (sent as literals because of their length only)",
            "negative or large integers (only their decimal text matters to the code)",
            "str leaves, DontQuoteMe and file-like leaves of collapseNestedLists",
            "parseNestedParens(handleLiteral=0) and the LineReceiver-level literal handling of IMAP4Client",
            "OPEN known finding backslash-not-unescaped: a leaf that contains a backslash and is sent as a quoted "
-           "string (no CR/LF in it) is excluded from the passing claim"]
+           "string (no CR/LF in it) is excluded from the round-trip claim (its serialised form is still checked "
+           "against the RFC 3501 quoted grammar by quoted_form)",
+           "RFC 3501 restricts quoted strings to 7-bit non-NUL characters; twisted quotes NUL and 8-bit bytes "
+           "too (see the RFC 5738 note in collapseNestedLists) - not checked"]
 ASSUMPTIONS = ["LBytes reproduces bytes for the operations used (lbytes.selftest on every run); lifted and real "
                "functions agree on the concrete vectors below (taken from test_imap.py and the property's families)",
                "str(int) inside collapseNestedLists is case split over 0..11"]
@@ -184,6 +188,39 @@ def two(shape: int, a: str, kind: int, b_: str, num: int) -> bool:
     return got == want
 
 
+def quoted_form(a: str) -> bool:
+    """
+    pre: len(a) <= B['n1'] and all(ord(c) < 256 for c in a)
+    pre: "\\r" not in a and "\\n" not in a
+    post: _
+    """
+    # serializer side alone, backslashes included (the parser-side finding does not mask it): the wire
+    # form is an RFC 3501 `quoted` (DQUOTE *QUOTED-CHAR DQUOTE; '"' and '\\' only as '\\"' and '\\\\')
+    # whose un-escaping, done here from the grammar, is the leaf
+    a = _fixlen(a, B['n1'])
+    wire = t(L.collapseNestedLists([b(a)]))
+    api.obs(wire)
+    cover()
+    n = len(wire)
+    if n < 2 or wire[0] != '"' or wire[n - 1] != '"':
+        return False
+    out = []
+    i = 1
+    while i < n - 1:
+        c = wire[i]
+        if c == '"':
+            return False
+        if c == "\\":
+            if i + 1 >= n - 1 or (wire[i + 1] != '"' and wire[i + 1] != "\\"):
+                return False
+            out.append(wire[i + 1])
+            i += 2
+        else:
+            out.append(c)
+            i += 1
+    return "".join(out) == a
+
+
 # ---- open known findings ------------------------------------------------------------------------
 
 def _quoted_backslash(text):
@@ -210,6 +247,8 @@ def classify(harness_name, args):
 
 
 HARNESSES = [
+    H(quoted_form, shards=lambda tier: [("len(a) == %d" % k,) for k in range(0, BOUNDS[tier]["n1"] + 1)],
+      timeout={"quick": 60, "thorough": 600}),
     H(one, shards=lambda tier: [("kind != 0",)] + [("kind == 0", "len(a) == %d" % k)
                                                    for k in range(0, BOUNDS[tier]["n1"] + 1)],
       timeout={"quick": 90, "thorough": 1200}),
@@ -220,6 +259,7 @@ HARNESSES = [
 ]
 
 VECTORS = {
+    "quoted_form": [("",), ("a",), ("\\",), ('"',), ('a\\"',), ("\\\\",), ("a b",), ("\x00\xff",), ("NIL",), ("{1}",)],
     "one": [(0, 0, "a", 0), (0, 0, "", 0), (1, 0, "NIL", 0), (0, 1, "", 0), (0, 2, "", 17), (2, 0, 'a"b', 0),
             (0, 0, "a\nb", 0), (0, 0, "a\rb", 0), (3, 0, "(", 0), (1, 0, "{3}", 0), (0, 0, " ", 0), (0, 0, "\x00\xff", 0),
             (1, 0, "a\n", 0), (0, 0, ")", 0), (0, 0, "]", 0), (0, 0, "[", 0), (3, 2, "", 0), (2, 1, "", 0),
